@@ -198,10 +198,10 @@ def item_getters(repo, out):
         if isinstance(t, ast.Compare) and len(t.ops) == 1 and isinstance(t.ops[0], ast.In) and \
                 ast.unparse(t.left) == 'errors' and isinstance(t.comparators[0], ast.Tuple):
             strs = [_str_const(e, 'get_dask_array errors chain') for e in t.comparators[0].elts]
-            cond = '(is_str && existsb (String.eqb s) %s)' % coq_strings(strs)
+            cond = '(andb is_str (existsb (String.eqb s) %s))' % coq_strings(strs)
         elif isinstance(t, ast.Compare) and len(t.ops) == 1 and isinstance(t.ops[0], ast.Eq) and \
                 ast.unparse(t.left) == 'errors':
-            cond = '(is_str && String.eqb s %s)' % coq_string(_str_const(t.comparators[0], 'get_dask_array errors chain'))
+            cond = '(andb is_str (String.eqb s %s))' % coq_string(_str_const(t.comparators[0], 'get_dask_array errors chain'))
         elif tsrc == 'isinstance(errors, str)':
             cond = 'is_str'
         else:
@@ -302,7 +302,7 @@ def _getter_result(stmts, bsrc):
             and isinstance(node.value, ast.Compare) and len(node.value.ops) == 1
             and isinstance(node.value.ops[0], ast.Eq) and ast.unparse(node.value.left) == 'errors'):
         raise TranslateError('get_dask_array: errors branch is %s' % bsrc)
-    return '(if is_str && String.eqb s %s then 1 else 0)' % coq_string(_str_const(node.value.comparators[0], 'dryrun'))
+    return '(if andb is_str (String.eqb s %s) then 1 else 0)' % coq_string(_str_const(node.value.comparators[0], 'dryrun'))
 
 
 def item_prune_head(repo, out):
